@@ -22,6 +22,27 @@ type Sink struct {
 	Pat func(v string) []PTok
 	// Rep: representative of its context -- every generated string is also validated by TLC
 	Rep bool
+	// Fixed: the component takes no input (a constant or literal expression form): rendered once
+	Fixed bool
+}
+
+// helpers used by the expression forms of gallery.templ
+func identity(s string) string         { return s }
+func withErr(s string) (string, error) { return s, nil }
+
+type stringer struct{ v string }
+
+func (s stringer) String() string { return s.v }
+
+const constMeta = "<b a=\"1\" c='2'>&amp;</b> \"'<>&"
+
+// A FormCase is one literal-valued expression form generated at check time (forms_gen.templ / forms_gen.go,
+// build tag c01forms): the component takes no argument, S is the value its literal / constant expression has.
+type FormCase struct {
+	Form string // text-literal text-rawliteral text-const text-litconcat attr-literal attr-rawliteral attr-const
+	Attr bool
+	S    string
+	C    templ.Component
 }
 
 var bg = context.Background()
@@ -232,6 +253,36 @@ func sinks() []Sink {
 			Render: func(s string) (templ.Component, context.Context) {
 				return scriptInHandler(), templ.WithNonce(context.Background(), s)
 			}},
+		// expression forms in element text
+		{ID: "text-form-call", Ctx: "TextInData", Kind: "text", Eff: id, Pat: elemText("p"),
+			Render: func(s string) (templ.Component, context.Context) { return plain(textCall(s)) }},
+		{ID: "text-form-call-with-error", Ctx: "TextInData", Kind: "text", Eff: id, Pat: elemText("p"),
+			Render: func(s string) (templ.Component, context.Context) { return plain(textCallWithError(s)) }},
+		{ID: "text-form-concat", Ctx: "TextInData", Kind: "text", Eff: func(s string) string { return "<" + s + ">" }, Pat: elemText("p"),
+			Render: func(s string) (templ.Component, context.Context) { return plain(textConcat(s)) }},
+		{ID: "text-form-method", Ctx: "TextInData", Kind: "text", Eff: id, Pat: elemText("p"),
+			Render: func(s string) (templ.Component, context.Context) { return plain(textMethod(stringer{s})) }},
+		{ID: "text-form-sprintf", Ctx: "TextInData", Kind: "text", Eff: id, Pat: elemText("p"),
+			Render: func(s string) (templ.Component, context.Context) { return plain(textSprintf(s)) }},
+		{ID: "text-form-constant", Fixed: true, Ctx: "TextInData", Kind: "text", Eff: func(string) string { return constMeta }, Pat: elemText("p"),
+			Render: func(s string) (templ.Component, context.Context) { return plain(textConstant()) }},
+		{ID: "text-form-literal", Fixed: true, Ctx: "TextInData", Kind: "text", Eff: func(string) string { return "a < b && b > c </p><script>alert(1)</script>" }, Pat: elemText("p"),
+			Render: func(s string) (templ.Component, context.Context) { return plain(textLiteral()) }},
+		{ID: "text-form-rawliteral", Fixed: true, Ctx: "TextInData", Kind: "text", Eff: func(string) string { return `Tom & Jerry <img src=x onerror=alert(1)> "q" 'a'` }, Pat: elemText("p"),
+			Render: func(s string) (templ.Component, context.Context) { return plain(textRawLiteral()) }},
+		// expression forms in attribute values
+		{ID: "attr-form-call", Ctx: "AttrDQ", Kind: "attr", Eff: id, Pat: pAttr("title"),
+			Render: func(s string) (templ.Component, context.Context) { return plain(attrCall(s)) }},
+		{ID: "attr-form-call-with-error", Ctx: "AttrDQ", Kind: "attr", Eff: id, Pat: pAttr("title"),
+			Render: func(s string) (templ.Component, context.Context) { return plain(attrCallWithError(s)) }},
+		{ID: "attr-form-concat", Ctx: "AttrDQ", Kind: "attr", Eff: func(s string) string { return "\"" + s + "'" }, Pat: pAttr("title"),
+			Render: func(s string) (templ.Component, context.Context) { return plain(attrConcat(s)) }},
+		{ID: "attr-form-constant", Fixed: true, Ctx: "AttrDQ", Kind: "attr", Eff: func(string) string { return constMeta }, Pat: pAttr("title"),
+			Render: func(s string) (templ.Component, context.Context) { return plain(attrConstant()) }},
+		{ID: "attr-form-literal", Fixed: true, Ctx: "AttrDQ", Kind: "attr", Eff: func(string) string { return "\" onmouseover=\"alert(1)\" x='<&>" }, Pat: pAttr("title"),
+			Render: func(s string) (templ.Component, context.Context) { return plain(attrLiteral()) }},
+		{ID: "attr-form-rawliteral", Fixed: true, Ctx: "AttrDQ", Kind: "attr", Eff: func(string) string { return `" onmouseover="alert(1)" x='<&>` }, Pat: pAttr("title"),
+			Render: func(s string) (templ.Component, context.Context) { return plain(attrRawLiteral()) }},
 	}
 	return ss
 }
